@@ -80,7 +80,8 @@ func openCfg(dir string, c vcfg) (*Store, error) {
 func mkKeys(K, L int, bits uint8) [][]byte {
 	keys := make([][]byte, K)
 	mask := uint32(1)<<bits - 1
-	bvals := []uint32{0, 0xA5A5A5A5 & mask}
+	// two adjacent bucket numbers (adjacency matters to whole-index iteration)
+	bvals := []uint32{0x5A & mask, 0x5B & mask}
 	for i := range keys {
 		if vrt.Param("concretekeys", 0) != 0 {
 			// fixed digests sharing bucket and first stored byte: for runs whose subject is
